@@ -40,6 +40,9 @@ type sample struct {
 }
 
 // trace samples total() until it reaches want or the horizon passes.
+// afterSecondSample, when set, runs once right after the second sample was taken (the transfer is under way).
+var afterSecondSample func()
+
 func trace(total func() int64, want int64, step, horizon time.Duration) []sample {
 	t0 := time.Now()
 	var tr []sample
@@ -47,6 +50,10 @@ func trace(total func() int64, want int64, step, horizon time.Duration) []sample
 		world.Settle(0)
 		n := total()
 		tr = append(tr, sample{time.Since(t0), n})
+		if len(tr) == 2 && afterSecondSample != nil {
+			afterSecondSample()
+			afterSecondSample = nil
+		}
 		if n >= want || time.Since(t0) > horizon {
 			return tr
 		}
@@ -93,7 +100,10 @@ func scenario(x *explore.X) {
 	wl := limits[x.ChooseFree("write-limit", len(limits))]
 	kind := []string{"download", "upload", "tunnel"}[x.ChooseFree("transfer", 3)]
 	nconn := 1 + x.ChooseFree("connections-1", 3)
-	w, err := world.Start(world.Options{ReadLimit: r, WriteLimit: wl})
+	// graceful shutdown requested while the transfer is under way (listeners are closed, exchanges and
+	// tunnels in flight are allowed to finish): the limits keep applying to them
+	shutdownMid := x.ChooseFree("graceful-shutdown-mid-transfer", 2) == 1
+	w, err := world.Start(world.Options{ReadLimit: r, WriteLimit: wl, ShutdownTimeout: 48 * time.Hour})
 	if err != nil {
 		x.Failf("harness/start", "%v", err)
 		return
@@ -104,6 +114,10 @@ func scenario(x *explore.X) {
 	for i := 0; i < nconn; i++ {
 		c, _ := w.Client()
 		clients = append(clients, c)
+	}
+	afterSecondSample = nil
+	if shutdownMid {
+		afterSecondSample = func() { w.Shutdown() }
 	}
 	size := bigSize
 	horizon := 10 * time.Minute
@@ -118,6 +132,9 @@ func scenario(x *explore.X) {
 	down := h1x.Pattern(size, 3)
 	up := h1x.Pattern(size, 8)
 	what := fmt.Sprintf("read-limit=%d write-limit=%d %s x%d", r, wl, kind, nconn)
+	if shutdownMid {
+		what += " (graceful shutdown requested after the second sample)"
+	}
 	x.Logf("%s", what)
 	stepFor := func(limit int64) time.Duration {
 		if limit == 0 {
@@ -259,7 +276,7 @@ func scenario(x *explore.X) {
 
 func TestC20(t *testing.T) {
 	s := explore.NewSuite(t, "C20", "model_checking",
-		"(read-limit, write-limit) in {0, 1 MiB/s, 64 MiB/s, 300 MiB/s, 16 KiB/s, 3000 B/s}^2 (the last two are smaller than one relay buffer / one bufio buffer) x transfer {download, upload, CONNECT tunnel both ways} of 12 MiB per connection (burst + 256 KiB with a limit below 1 MiB/s) x {1,2,3} connections sharing the listener [full product]; on the virtual clock the receiving side's (time, cumulative bytes) is sampled 64+ times per transfer (states = samples) and the token-bucket bound bytes <= burst + rate x dt + one 64 KiB write per connection is checked between EVERY pair of samples, plus minimum duration, zero virtual time for an unlimited direction, and byte-for-byte identity of the data")
+		"(read-limit, write-limit) in {0, 1 MiB/s, 64 MiB/s, 300 MiB/s, 16 KiB/s, 3000 B/s}^2 (the last two are smaller than one relay buffer / one bufio buffer) x transfer {download, upload, CONNECT tunnel both ways} of 12 MiB per connection (burst + 256 KiB with a limit below 1 MiB/s) x {1,2,3} connections sharing the listener x {no shutdown, graceful shutdown requested while the transfer is under way} [full product]; on the virtual clock the receiving side's (time, cumulative bytes) is sampled 64+ times per transfer (states = samples) and the token-bucket bound bytes <= burst + rate x dt + one 64 KiB write per connection is checked between EVERY pair of samples, plus minimum duration, zero virtual time for an unlimited direction, and byte-for-byte identity of the data")
 	s.Assume = []string{"virtual clock of testing/synctest drives golang.org/x/time/rate", "documented slack: the limiter is charged after each write, so one write (<= 64 KiB) per connection may exceed the bucket", "simnet receive buffers are unbounded, so the only throttle is the limiter under test"}
 	s.Add(explore.Scenario{Name: "limits", Remote: true, Run: func(x *explore.X) { world.Run(t, x, func() { scenario(x) }) }})
 	s.Main()
